@@ -393,12 +393,30 @@ func canon(v *query.View) string {
 	return strconv.Itoa(v.FieldLen()) + " " + canonRows(viewRows(v))
 }
 
+// cellAt is hc.ViewCell that survives a damaged record (a changed implementation may hand out records whose
+// cells were truncated by another reference); such a cell is reported as `?corrupt` instead of a panic
+func cellAt(v *query.View, i, j int) (value.Primary, bool) {
+	r := v.RecordSet[i]
+	if j >= len(r) || len(r[j]) == 0 || r[j][0] == nil {
+		return value.NewNull(), false
+	}
+	return r[j][0], true
+}
+
+func cellEnc(v *query.View, i, j int) string {
+	p, ok := cellAt(v, i, j)
+	if !ok {
+		return "?corrupt"
+	}
+	return hc.EncVal(p)
+}
+
 func viewRows(v *query.View) [][]string {
 	rows := make([][]string, v.RecordLen())
 	for i := range rows {
 		r := make([]string, v.FieldLen())
 		for j := range r {
-			r[j] = hc.EncVal(hc.ViewCell(v, i, j))
+			r[j] = cellEnc(v, i, j)
 		}
 		rows[i] = r
 	}
